@@ -85,6 +85,10 @@ def gen_fragment(rng, names, depth, ctx):
 
 
 def gen(rng, tier, ctx):
+    if rng.random() < 0.12:
+        spec = GEN.gen_scalar_vars(rng, falsy=True)
+        spec["family"] = "scalar"
+        return spec
     world = G.gen_world(rng)
     nv = rng.choice([1, 2, 2, 3, 3, 4])
     names = ["x", "y", "z", "u"][:nv]
